@@ -21,7 +21,7 @@ from harness.core import MachineryFailure, Outcome, Violation, run_tlc, scratch,
 DIRS = ['s1', 's2']
 NAMES = ['fa', 'fv', 'fe', 'fb']
 KIDS = ['00112233445566778899aabbccddee01']
-MPS = ['mm1']
+MPS = ['mm1', 'mz1']      # mz*: created with period duration "PT0S" (= the whole stream)
 
 
 class StoreDriver:
@@ -158,7 +158,9 @@ class StoreDriver:
         if op == 'add_mps':
             spk = self._spk(st, b) or 9999
             body = {'csrf_token': s.mint('streams'), 'name': a, 'title': f'MPS {a}', 'options': None, 'pk': None,
-                    'periods': [{'pk': None, 'pid': 'p1', 'stream': spk, 'ordering': 1, 'start': 'PT0S', 'duration': 'PT8S', 'parent': None,
+                    'periods': [{'pk': None, 'pid': 'p1', 'stream': spk, 'ordering': 1, 'start': 'PT0S',
+                                 # "PT0S" (like "") stands for "the whole stream"
+                                 'duration': 'PT0S' if a.startswith('mz') else 'PT8S', 'parent': None,
                                  'tracks': [{'track_id': 1, 'role': 'main', 'encrypted': False, 'lang': None, 'pk': None}]}]}
             r = s.request('PUT', '/api/multi-period-streams/.add', json=body)
             js = r.get_json(silent=True) or {}
@@ -212,6 +214,9 @@ SCRIPTS = [
      ('delete_stream', 's1', '')],
     [('add_stream', 's2', ''), ('upload', 's2', 'fv'), ('edit_media', 'fv', 'xyz'), ('set_tref', 's2', 'fv'), ('edit_media', 'nope', 'eng'),
      ('delete_media', 'fv', '')],
+    # a multi-period stream whose only period is given the duration "PT0S"
+    [('add_stream', 's1', ''), ('upload', 's1', 'fv'), ('set_tref', 's1', 'fv'), ('add_mps', 'mz1', 's1'), ('delete_mps', 'mz1', ''),
+     ('add_mps', 'mz1', 's1'), ('add_mps', 'mm1', 's1'), ('delete_mps', 'mm1', '')],
     # editing a stream's directory: allowed while it is empty, must not strand the blobs of a stream that has media files
     [('add_stream', 's1', ''), ('rename_stream', 's1', 's2'), ('upload', 's2', 'fv'), ('set_tref', 's2', 'fv'), ('rename_stream', 's2', 's1'),
      ('upload', 's2', 'fa'), ('add_stream', 's1', ''), ('rename_stream', 's1', 's2'), ('delete_stream', 's2', '')],
@@ -257,9 +262,9 @@ def random_history(rng: random.Random, n: int) -> list[tuple[str, str, str]]:
         elif op in ('add_key', 'delete_key'):
             h.append((op, KIDS[0], ''))
         elif op == 'add_mps':
-            h.append((op, MPS[0], rng.choice(DIRS)))
+            h.append((op, rng.choice(MPS), rng.choice(DIRS)))
         else:
-            h.append((op, MPS[0], ''))
+            h.append((op, rng.choice(MPS), ''))
     return h
 
 
